@@ -59,6 +59,23 @@ fn c14_timestamp_overflow() -> (bool, String) {
     (r.is_err(), format!("window=10: L(ts=2^63,key=A) R(ts=5,key=A): {:?} (debug build: `attempt to subtract with overflow` in is_within_window)", r.as_ref().ok()))
 }
 
+/// every sequence over `dom` of length 0..=max_len, in the order []; a; a,a; a,a,a; ..; a,a,b; .. (a prefix before its extensions)
+fn all_sequences<T: Copy>(dom: &[T], max_len: usize) -> Vec<Vec<T>> {
+    fn go<T: Copy>(dom: &[T], max_len: usize, cur: &mut Vec<T>, out: &mut Vec<Vec<T>>) {
+        out.push(cur.clone());
+        if cur.len() < max_len {
+            for x in dom {
+                cur.push(*x);
+                go(dom, max_len, cur, out);
+                cur.pop();
+            }
+        }
+    }
+    let mut out = Vec::new();
+    go(dom, max_len, &mut Vec::new(), &mut out);
+    out
+}
+
 /// bounded search over the QUANTIFIER of C14 with pairwise distinct event ids and no eviction: all pairs of streams of up
 /// to 2+2 events (keys A, B, none; timestamps 0, 5, 11; window 10; two join conditions), every merge, with and without
 /// `update_watermark(0)` after each arrival.  Emitted multiset must equal the reference join.
@@ -71,19 +88,18 @@ fn c14_interleaving_search() -> (bool, String) {
             shapes.push((k, t));
         }
     }
-    let mut streams: Vec<Vec<(Option<&str>, u64)>> = vec![vec![]];
-    for a in &shapes {
-        streams.push(vec![*a]);
-        for b in &shapes {
-            streams.push(vec![*a, *b]);
-        }
-    }
+    // quick tier: up to 2 events per side; thorough tier: up to 3 per side and at most 5 in all
+    let (max_side, max_total) = (crate::bound(2, 3), crate::bound(4, 5));
+    let streams: Vec<Vec<(Option<&str>, u64)>> = all_sequences(&shapes, max_side);
     let conds: [(&str, fn(&StreamEvent, &StreamEvent) -> bool); 2] =
         [("true", |_, _| true), ("l.ts<=r.ts", |l, r| l.metadata.timestamp <= r.metadata.timestamp)];
     let mut runs = 0u64;
     for (cname, cond) in conds {
         for ls in &streams {
             for rs in &streams {
+                if ls.len() + rs.len() > max_total {
+                    continue;
+                }
                 let lev: Vec<StreamEvent> = ls.iter().enumerate().map(|(i, (k, t))| ev(&format!("l{}", i), "left", *t, *k)).collect();
                 let rev: Vec<StreamEvent> = rs.iter().enumerate().map(|(i, (k, t))| ev(&format!("r{}", i), "right", *t, *k)).collect();
                 // reference join
@@ -139,7 +155,7 @@ fn c14_interleaving_search() -> (bool, String) {
             }
         }
     }
-    (false, format!("{} runs (streams up to 2+2, all merges, with/without update_watermark(0)): emitted multiset == reference join", runs))
+    (false, format!("{} runs (streams up to {}+{}{}, all merges, with/without update_watermark(0)): emitted multiset == reference join", runs, max_side, max_side, if max_total < 2 * max_side { format!(" with at most {} events in all", max_total) } else { String::new() }))
 }
 
 /// second bounded search, for shapes the first one does not reach: one event on one side against up to THREE on the other (one key,
@@ -148,16 +164,8 @@ fn c14_interleaving_search() -> (bool, String) {
 /// No watermark call after the first event, so nothing is ever evicted and the emitted multiset must equal the reference join.
 fn c14_interleaving_search_one_vs_three() -> (bool, String) {
     let tss = [5u64, 100, 6, 0];
-    let mut many: Vec<Vec<u64>> = vec![vec![]];
-    for a in tss {
-        many.push(vec![a]);
-        for b in tss {
-            many.push(vec![a, b]);
-            for c in tss {
-                many.push(vec![a, b, c]);
-            }
-        }
-    }
+    let max_many = crate::bound(3, 7); // (the name says three: the quick tier's bound)
+    let many: Vec<Vec<u64>> = all_sequences(&tss, max_many);
     let mut one: Vec<Vec<u64>> = vec![vec![]];
     for a in tss {
         one.push(vec![a]);
@@ -219,7 +227,7 @@ fn c14_interleaving_search_one_vs_three() -> (bool, String) {
             }
         }
     }
-    (false, format!("{} runs (1 vs up to 3 events, all merges, optional initial watermark on the empty node): emitted multiset == reference join", runs))
+    (false, format!("{} runs (1 vs up to {} events, all merges, optional initial watermark on the empty node): emitted multiset == reference join", runs, max_many))
 }
 
 pub fn witnesses() -> Vec<crate::W> {
